@@ -199,7 +199,15 @@ func (b *recBlock) Get(d digest.Digest, offsetBytes, sizeBytes int64, cb buffer.
 	// (keyed by goroutine: the read buffer factory may yield before it
 	// creates the reader)
 	b.a.env.pendingGet[b.a.env.s.Cur().ID] = pendingGet{b.rec, offsetBytes}
-	return b.base.Get(d, offsetBytes, sizeBytes, cb)
+	e := b.a.env
+	e.blockGets = append(e.blockGets, blockGet{b.rec, e.s.Cur().ID, e.s.Steps})
+	return b.base.Get(d, offsetBytes, sizeBytes, func(valid bool) {
+		if !valid {
+			e.detections = append(e.detections, detection{b.rec, e.s.Steps})
+			e.c.Logf("integrity callback: block #%d invalid", b.rec.ID)
+		}
+		cb(valid)
+	})
 }
 
 func (b *recBlock) HasSpace(sizeBytes int64) bool { return b.base.HasSpace(sizeBytes) }
@@ -219,7 +227,9 @@ func (b *recBlock) Put(sizeBytes int64) local.BlockPutWriter {
 			e.finalizeSeq[g] = e.s.Steps
 			e.finalizeTime[g] = e.s.Now()
 			e.lastFinalizeSeq = e.s.Steps
-			return f()
+			off, err := f()
+			e.putRecs = append(e.putRecs, &putRec{Block: b.rec, Off: off, Size: sizeBytes, G: g, Seq: e.s.Steps, OK: err == nil})
+			return off, err
 		}
 	}
 }
@@ -356,14 +366,40 @@ type storeEnv struct {
 	finalizeTime           map[int]time.Duration // goroutine id -> sim time of its last block put finalizer
 	lastFinalizeSeq        int
 	pendingGet             map[int]pendingGet
+	putRecs                []*putRec
+	detections             []detection
+	blockGets              []blockGet
 	activeStateWrites      int
 	shutdownSeq            int                   // seq at which shutdown was requested (0 = not)
 	routineReturned        bool
 }
 
+// putRec is one completed block-level write (upload or refresh copy).
+type putRec struct {
+	Block  *blockRec
+	Off    int64
+	Size   int64
+	G      int
+	Seq    int // seq of the finalizer
+	OK     bool
+}
+
+// detection is one negative data-integrity callback.
+type detection struct {
+	Block *blockRec
+	Seq   int
+}
+
 type pendingGet struct {
 	block *blockRec
 	off   int64
+}
+
+// blockGet records a Block.Get call.
+type blockGet struct {
+	Block *blockRec
+	G     int
+	Seq   int
 }
 
 // syncRound is one NotifySyncStarting … NotifySyncCompleted bracket.
